@@ -474,6 +474,25 @@ def known_values(toks, base_line):
         for v in t.values:
             if "intvalue" in v and (v.get("known") == "true" or v.get("impossible") == "true"):
                 vals.append(("K" if v.get("known") == "true" else "I", v.get("bound", "Point"), int(v["intvalue"])))
-        if vals:
+        # ':' is not an expression of its own: cppcheck parks the arm values on it (order dependent), nothing to compare
+        if vals and t.str != ":":
             out[(t.line - base_line, k, t.str)] = sorted(vals)
     return out
+
+
+# ---- fixed corpus of alias shapes on which fresh seeds found genuine differences (class key, program, uses) ----
+_INT, _LONG, _S = ("b", "int"), ("b", "long"), ("s", "S")
+ALIAS_CORPUS = [
+    # using T0 = long[3]; T0 v0[2][4];   cppcheck: long v0[3][2][4]   (C: long v0[2][4][3])
+    dict(cls="using-array-alias-dims",
+         items=[("U", "T0", ("a", 3, _LONG)), ("D", ("n", "T0"), ("A", 4, ("A", 2, ("I", "v0"))))],
+         uses=["v0[1][3][2] = 0;", "v0[1][3][3] = 0;", "sink(v0[0][0][0] == 0);"]),
+    # typedef struct S T0[3]; using T1 = T0; T1 v0[1];   cppcheck leaves `T0 v0[1]`
+    dict(cls="using-of-array-typedef",
+         items=[("T", _S, ("A", 3, ("I", "T0"))), ("U", "T1", ("n", "T0")), ("D", ("n", "T1"), ("A", 1, ("I", "v0")))],
+         uses=["v0[0][2].m = 1;", "sink(v0[0][3].m);"]),
+    # typedef int T0[2]; T0 *(*v0)(int *, int);   cppcheck: int ( * ) [ 2 ] ( * v0 ) ( int * , int )
+    dict(cls="fnptr-use",
+         items=[("T", _INT, ("A", 2, ("I", "T0"))), ("D", ("n", "T0"), ("P", ("F", (("p", _INT), _INT), ("P", ("I", "v0")))))],
+         uses=["v0 = 0;", "v0(0, 0);"]),
+]
